@@ -174,7 +174,7 @@ class Impl(object):
 
     def obj(self, o):
         if o[0] not in self.objs:
-            self.objs[o[0]] = O(o[0], o[1])
+            self.objs[o[0]] = O(o[0], (o[1] + '.')[:-1])      # every element has its id in a string object of its own (equal ids, not identical ones)
         return self.objs[o[0]]
 
     def state(self):
